@@ -1,18 +1,18 @@
 #!/bin/bash
-# usage: tools/try_seeded2.sh <dir-with-change_i.diff-and-demo_i.py> <i> "<props to check>"
+# usage: tools/try_seeded2.sh <seeded-id e.g. C13_agent_1> "<props to check>"
 # works on a scratch copy of /repo's working tree (so several can run in parallel); removes the copy afterwards
-D=$1; I=$2; PROPS=$3
-TAG=$(basename $(dirname $D))_$I
-S=/tmp/scratch/seedrepo_$TAG
+ID=$1; PROPS=$2
+D=/verif/seeded/$ID
+S=/tmp/scratch/seedrepo_$ID
 rm -rf $S; mkdir -p $S; rsync -a --exclude .git --exclude '*.pyc' /repo/ $S/
 cd $S
-PYTHONPATH=$S /venv/bin/python -W ignore $D/demo_$I.py > /tmp/scratch/demo_clean_$TAG.log 2>&1; c0=$?
-git apply $D/change_$I.diff 2>/tmp/scratch/apply_$TAG.log || patch -p1 -s < $D/change_$I.diff || { echo "$TAG: diff does not apply"; rm -rf $S; exit 9; }
-PYTHONPATH=$S /venv/bin/python -W ignore $D/demo_$I.py > /tmp/scratch/demo_changed_$TAG.log 2>&1; c1=$?
-echo "$TAG demo: clean exit=$c0, with change exit=$c1   ($(tail -1 /tmp/scratch/demo_changed_$TAG.log | cut -c1-160))"
+PYTHONPATH=$S /venv/bin/python -W ignore $D/demo.py > /tmp/scratch/demo_clean_$ID.log 2>&1; c0=$?
+git apply $D/patch.diff 2>/tmp/scratch/apply_$ID.log || { echo "$ID: diff does not apply"; rm -rf $S; exit 9; }
+PYTHONPATH=$S /venv/bin/python -W ignore $D/demo.py > /tmp/scratch/demo_changed_$ID.log 2>&1; c1=$?
+echo "$ID demo: clean exit=$c0, with change exit=$c1   ($(tail -1 /tmp/scratch/demo_changed_$ID.log | cut -c1-160))"
 cd /verif
 for p in $PROPS; do
   out=$(VERIF_REPO=$S VERIF_NPROC=${NP:-5} ./check $p 2>&1); code=$?
-  echo "$TAG check $p exit=$code :: $(echo "$out" | grep -m2 'VIOLATION\|UNDECIDED\|CRASH' | cut -c1-260 | tr '\n' ' ')"
+  echo "$ID check $p exit=$code :: $(echo "$out" | grep -m2 'VIOLATION\|UNDECIDED\|CRASH' | cut -c1-260 | tr '\n' ' ')"
 done
 rm -rf $S
